@@ -25,6 +25,7 @@
   most.
 -/
 import CachedProofs.Lemmas.TtlInv
+import CachedProofs.LayerB.Sweep
 
 namespace Cached
 
